@@ -1,8 +1,104 @@
 //! Implementation side of driver op `lex` (see /verif/CONTRIBUTING.md).
-#![allow(unused_imports, dead_code)]
+//!
+//! `lex <hexbytes> <0|1>`: run the real `Lexer::lex_to_eof(flag)` over the
+//! bytes and print every token as `kind:start:end[:payload]` joined by `;`,
+//! or the single error as `E<Kind>:start:end[:detail]`.  Spans are decoded
+//! with `SpanManager::get_span`.
 use crate::util::*;
+use rsjsonnet_lang::arena::Arena;
+use rsjsonnet_lang::interner::StrInterner;
+use rsjsonnet_lang::lexer::{LexError, Lexer};
+use rsjsonnet_lang::span::{SpanId, SpanManager};
+use rsjsonnet_lang::token::TokenKind;
 
-/// `lex <args...>`: one canonical answer line, or `None` for a malformed request.
-pub fn handle(_args: &[&str]) -> Option<String> {
-    None
+fn show_err(e: &LexError) -> (&'static str, SpanId, Option<String>) {
+    match e {
+        LexError::InvalidChar { span, chr } => ("InvalidChar", *span, Some(format!("{}", *chr as u32))),
+        LexError::InvalidUtf8 { span, seq } => ("InvalidUtf8", *span, Some(hex_enc(seq))),
+        LexError::UnfinishedMultilineComment { span } => ("UnfinishedMultilineComment", *span, None),
+        LexError::LeadingZeroInNumber { span } => ("LeadingZeroInNumber", *span, None),
+        LexError::MissingFracDigits { span } => ("MissingFracDigits", *span, None),
+        LexError::MissingExpDigits { span } => ("MissingExpDigits", *span, None),
+        LexError::MissingDigitAfterUnderscore { span } => ("MissingDigitAfterUnderscore", *span, None),
+        LexError::ExpOverflow { span } => ("ExpOverflow", *span, None),
+        LexError::InvalidEscapeInString { span, chr } => {
+            ("InvalidEscapeInString", *span, Some(format!("{}", *chr as u32)))
+        }
+        LexError::IncompleteUnicodeEscape { span } => ("IncompleteUnicodeEscape", *span, None),
+        LexError::InvalidUtf16EscapeSequence { span, cu1, cu2 } => (
+            "InvalidUtf16EscapeSequence",
+            *span,
+            Some(match cu2 {
+                Some(c2) => format!("{},{}", cu1, c2),
+                None => format!("{},-", cu1),
+            }),
+        ),
+        LexError::UnfinishedString { span } => ("UnfinishedString", *span, None),
+        LexError::MissingLineBreakAfterTextBlockStart { span } => {
+            ("MissingLineBreakAfterTextBlockStart", *span, None)
+        }
+        LexError::MissingWhitespaceTextBlockStart { span } => {
+            ("MissingWhitespaceTextBlockStart", *span, None)
+        }
+        LexError::InvalidTextBlockTermination { span } => ("InvalidTextBlockTermination", *span, None),
+    }
+}
+
+/// `lex <hexbytes> <0|1>`: one canonical answer line, or `None` for a malformed request.
+pub fn handle(args: &[&str]) -> Option<String> {
+    if args.len() != 2 {
+        return None;
+    }
+    let input = hex_dec(args[0])?;
+    let flag = match args[1] {
+        "0" => false,
+        "1" => true,
+        _ => return None,
+    };
+    let arena = Arena::new();
+    let ast_arena = Arena::new();
+    let str_interner = StrInterner::new();
+    let mut span_mgr = SpanManager::new();
+    let (span_ctx, _) = span_mgr.insert_source_context(input.len());
+    let lexer = Lexer::new(&arena, &ast_arena, &str_interner, &mut span_mgr, span_ctx, &input);
+    let res = lexer.lex_to_eof(flag);
+    let sp = |m: &SpanManager, id: SpanId| -> Option<(usize, usize)> {
+        let (c, s, e) = m.get_span(id);
+        if c == span_ctx { Some((s, e)) } else { None }
+    };
+    match res {
+        Ok(tokens) => {
+            let mut out: Vec<String> = Vec::with_capacity(tokens.len());
+            for t in tokens.iter() {
+                let (s, e) = match sp(&span_mgr, t.span) {
+                    Some(x) => x,
+                    None => return Some("badspan".into()),
+                };
+                let item = match t.kind {
+                    TokenKind::EndOfFile => format!("EndOfFile:{}:{}", s, e),
+                    TokenKind::Whitespace => format!("Whitespace:{}:{}", s, e),
+                    TokenKind::Comment => format!("Comment:{}:{}", s, e),
+                    TokenKind::Simple(k) => format!("Simple:{}:{}:{:?}", s, e, k),
+                    TokenKind::OtherOp(v) => format!("OtherOp:{}:{}:{}", s, e, hex_enc(v.as_bytes())),
+                    TokenKind::Ident(v) => format!("Ident:{}:{}:{}", s, e, hex_enc(v.value().as_bytes())),
+                    TokenKind::Number(n) => format!("Number:{}:{}:{},{}", s, e, n.digits, n.exp),
+                    TokenKind::String(v) => format!("String:{}:{}:{}", s, e, hex_enc(v.as_bytes())),
+                    TokenKind::TextBlock(v) => format!("TextBlock:{}:{}:{}", s, e, hex_enc(v.as_bytes())),
+                };
+                out.push(item);
+            }
+            Some(out.join(";"))
+        }
+        Err(err) => {
+            let (name, span, detail) = show_err(&err);
+            let (s, e) = match sp(&span_mgr, span) {
+                Some(x) => x,
+                None => return Some("badspan".into()),
+            };
+            Some(match detail {
+                Some(d) => format!("E{}:{}:{}:{}", name, s, e, d),
+                None => format!("E{}:{}:{}", name, s, e),
+            })
+        }
+    }
 }
